@@ -125,6 +125,10 @@ def run(ctx):
         e.pop("text", None)
         e.pop("ref_text", None)
     ctx.validate("Trace_Json", events, header=hdr, shard=1200, weight=lambda e: 1 + len(str(e["tree"])) // 2000)
+    # documents read into objects that already hold values (from_json / from_dict on an instance): given fields replace what was
+    # there (a repeated field is replaced, not extended - as the reference's Parse does), absent ones are kept
+    from .. import hist
+    hist.run_histories(ctx, ["TRep", "TMix", "TOne", "TOpt", "TMapV", "TScal"], 400 if quick else 12000, 8, "fromdict")
     bad = [(cl, c) for cl, c in ctx.violations if cl.startswith("ref_")]
     if bad:
         raise MachineryError("reference/spec disagreement: %s %r %r" % (bad[0][0], bad[0][1].get("case"), bad[0][1].get("_detail")))
